@@ -14,7 +14,8 @@ import sys
 from pathlib import Path
 
 VERIF = Path(__file__).resolve().parent.parent
-REPO = Path("/repo")
+import os
+REPO = Path(os.environ.get("VERIF_REPO", "/repo"))
 
 
 def sh(cmd, **kw):
@@ -38,12 +39,12 @@ def main():
                 if (d / f).exists():
                     shutil.copy(d / f, dest / f)
         meta = json.loads((dest / "meta.json").read_text()) if (dest / "meta.json").exists() else {}
-        assert sh("git -C /repo status --porcelain -- pyxform").stdout.strip() == "", "/repo is dirty"
-        env = "PYTHONPATH=/repo PYTHONHASHSEED=0"
+        assert sh(f"git -C {REPO} status --porcelain -- pyxform").stdout.strip() == "", "/repo is dirty"
+        env = f"PYTHONPATH={REPO} PYTHONHASHSEED=0"
         before = sh(f"cd /tmp && {env} timeout 300 /venv/bin/python {dest}/demo.py")
         evf = VERIF / "evidence" / f"{pid}.json"
         ev_backup = evf.read_text() if evf.exists() else None
-        ap = sh(f"git -C /repo apply {dest}/patch.diff")
+        ap = sh(f"git -C {REPO} apply {dest}/patch.diff")
         if ap.returncode != 0:
             print(name, "PATCH DOES NOT APPLY", ap.stderr[:300])
             continue
@@ -62,7 +63,7 @@ def main():
                 except Exception:
                     rp = None
         finally:
-            sh("git -C /repo checkout -- pyxform")
+            sh(f"git -C {REPO} checkout -- pyxform")
             if ev_backup is not None:
                 evf.write_text(ev_backup)   # evidence must come from the unchanged tree only
         meta["confirmed"] = {"demo_unmodified_exit": before.returncode, "demo_patched_exit": after.returncode}
